@@ -15,6 +15,7 @@ RULE = ("families of 2-4 inputs (text and NetCDF) that list times / lead times /
 RULE += " " + 'About a third of the families contain later files without an observation column (their observations are borrowed by coordinates).'
 RULE += " " + "Families also contain twin lead-time grids (same length and ends, another interior value) with -T commands whose two file orders run in FRESH interpreters, files storing different observations, and a text2nc copy whose per-location scores must equal the text file's."
 RULE += " " + 'Rounds 9-10: dense station networks with different observations per file run -m fss in all file orders; NetCDF files with an unwritten slot in the time coordinate.'
+RULE += " " + 'Rounds 11-12: text variants with date+hour / offset / id columns; -m obsfcst -q in all file orders (a column named after a file keeps its numbers).'
 ASSUMPTIONS = ["no duplicated coordinates inside a file; location metadata consistent across files (the first file's is used)",
                "-T is not combined with permuted NetCDF dimensions here (window-by-position is reported by C15)"]
 REQUIRED_COUNTERS = ["cells_compared", "permutation_pairs", "file_orders", "columns_compared"]
